@@ -181,7 +181,7 @@ EvFormat(m) ==
 StartEv(m) ==
   IF m.eph # "idle" \/ m.q = <<>> \/ m.lost THEN m
   ELSE LET it == Head(m.q) IN
-       EvFormat([m EXCEPT !.q = Tail(@), !.ec = it[1], !.et = it[2], !.emaybe = @ + 1, !.evs = @ + 1])
+       EvFormat([m EXCEPT !.q = Tail(@), !.ec = it[1], !.et = it[2], !.emaybe = IF @ < m.cfg.qcap THEN @ + 1 ELSE @, !.evs = @ + 1])
 
 (***************************************************************************)
 (* Queue bookkeeping for trigger / is_full / is_buffered                    *)
